@@ -40,7 +40,7 @@ SPEC = {
             "op_truncate": 15_000, "op_bitflip": 12_000, "op_cs-noncanonical": 12_000, "op_count-huge": 10_000,
             "op_count-plus1": 5000, "op_count-minus1": 3000, "op_amount-out-of-range": 6000, "op_all-ones": 2000,
             "op_flags-reserved": 400, "op_header-value": 3000, "op_splice": 1500, "op_other-branch": 800, "op_branch-swap": 1000,
-            "boundary_amounts_accepted": 1500, "suffix_cases": 700,
+            "boundary_amounts_accepted": 1500, "suffix_cases": 700, "chunked_reader_parses": 15_000, "chunked_reader_short_reads": 1_000_000,
             "shape_all_bundles_empty": 80, "shape_sapling_spends_only": 60, "shape_sapling_outputs_only": 60,
             "shape_compactsize_253_boundary": 60, "shape_compactsize_64k_boundary": 6, "shape_script_64k": 6,
             "shape_with_joinsplits": 100, "shape_with_orchard": 120, "shape_with_ironwood": 20, "shape_coinbase": 80,
@@ -64,6 +64,7 @@ SPEC = {
             "shape_all_bundles_empty": 1400, "shape_sapling_spends_only": 1100, "shape_sapling_outputs_only": 1100,
             "pos_v6_nu6_3": 900, "pos_v5_nu5": 900, "pos_v5_nu6_3": 900, "pos_v4_sapling": 900, "pos_v4_nu6_3": 900,
             "pos_v3_overwinter": 900, "pos_v1_sprout": 900, "pos_v2_sprout": 900, "pos_v2hi_sprout": 900,
+            "chunked_reader_parses": 200_000, "chunked_reader_short_reads": 20_000_000,
             "header_cases": 4000, "compactsize_max_vector_accepted": 1, "oversized_compactsize_with_data_rejected": 1,
             "enc5_compactsize_values": 16, "enc5_combinator_rounds": 16,
             "py_tx_checked": 15000, "py_pre_v5_txid_sha256d_checked": 8000, "py_v5_v6_layout_checked": 4000, "py_headers_checked": 2500,
